@@ -11,7 +11,7 @@ import sesslib
 from vlib import ToolError, log
 
 PUPPETS_QUICK = ["rec1", "loop2"]
-PUPPETS_ALL = ["rec1", "loop2", "gen3", "mut4"]
+PUPPETS_ALL = ["rec1", "loop2", "gen3", "mut4", "deep6"]
 
 # which verdict classes belong to which property
 OWN = {
@@ -22,7 +22,7 @@ OWN = {
             "not_one_instruction", "deeper_activation_same_function", "inside_callee_past_boundary",
             "past_first_line_boundary", "inside_callee", "not_a_statement_boundary", "not_admissible",
             "silent_cut_short", "place_ne_pc", "line_ne_pc_line", "command_failed"},
-    "C05": {"backtrace_truncated", "backtrace_wrong_frame"},
+    "C05": {"backtrace_truncated", "backtrace_wrong_frame", "cfa_wrong", "frame_return_address_wrong"},
     "C11": {"restart_failed", "restart_lost_or_moved_breakpoint", "restart_renumbered_breakpoints", "wrong_exit_code",
             "panic_on_drop", "process_left_behind", "attached_process_killed", "attached_process_left_stopped",
             "residual_patch_after_release", "debug_register_left_armed", "pc_not_in_execution", "exit_not_reported"},
@@ -33,6 +33,8 @@ RUN_CMDS = {"start", "continue"}
 
 def puppet_list(tier):
     names = PUPPETS_QUICK if tier == "quick" else PUPPETS_ALL
+    if __import__("os").environ.get("VERIF_PUPPETS"):          # development aid
+        names = __import__("os").environ["VERIF_PUPPETS"].split(",")
     return [sesslib.SESS_SRC / f"{n}.rs" for n in names if (sesslib.SESS_SRC / f"{n}.rs").exists()]
 
 
